@@ -98,6 +98,10 @@ def gen_inputs(ctx):
             p = rng.randrange(min(len(t), 6))
             t[p] = rng.randrange(256)
             out.append(("ScriptParse", B(bytes(t)), ("corrupt-head",)))
+    # scripts whose raw size reaches 64 KiB (127 elements of 520 bytes and more): the length prefix needs the 0xfe form
+    for nel in ((127,) if q else (125, 126, 127, 130)):
+        cm = [{"d": elem(rng, 520)} for _ in range(nel)]
+        out.append(("ScriptSer", {"cmds": cm, "raw": False}, ("ser-64KiB", nel * 523 >= 65536)))
     # scripts BUILT IN STEPS: serialised once, then extended through the public command list, then serialised again
     for _ in range(12 if q else 150):
         cm = [({"op": rng.choice([0, 0x51, 0x76, 0xa9, 0xac])} if rng.random() < 0.5 else {"d": elem(rng, rng.choice([1, 20, 75, 76, 255, 256]))})
